@@ -135,7 +135,12 @@ static string op_str(const Op& o) {
   if (o.u32) s += "[u32]";
   switch (o.kind) {
     case K_FILL: return s + fmt("(x=%" PRId64 ",y=%" PRId64 ",w=%" PRId64 ",h=%" PRId64 ",rgba=%s)", o.x, o.y, o.w, o.h, col_str(o.c).c_str());
-    case K_TEXT: return s + fmt("(x=%" PRId64 ",y=%" PRId64 ",rgba=%s,bg=%s,text=hex:%s)", o.x, o.y, col_str(o.c).c_str(), col_str(o.bg).c_str(), vf::hex(o.text).c_str());
+    case K_TEXT:
+      if (o.text.size() > 48 || o.tov >= 0)
+        return s + fmt("(x=%" PRId64 ",y=%" PRId64 ",rgba=%s,bg=%s,formatted length=%zu,format variant=%d [0:%%s 1:%%*s 2:literal%%d%%s 3:%%-*s|],overload=%d,width arg=%d,num arg=%d,text seed=%" PRIu64 ",first bytes hex:%s,last bytes hex:%s)",
+            o.x, o.y, col_str(o.c).c_str(), col_str(o.bg).c_str(), o.text.size(), o.tvar, o.tov, o.twidth, o.tnum, o.tseed, vf::hex(o.text.substr(0, 12)).c_str(),
+            vf::hex(o.text.substr(o.text.size() > 12 ? o.text.size() - 12 : 0)).c_str());
+      return s + fmt("(x=%" PRId64 ",y=%" PRId64 ",rgba=%s,bg=%s,text=hex:%s)", o.x, o.y, col_str(o.c).c_str(), col_str(o.bg).c_str(), vf::hex(o.text).c_str());
     case K_HLINE: return s + fmt("(x1=%" PRId64 ",x2=%" PRId64 ",y=%" PRId64 ",dash=%" PRId64 ",rgba=%s)", o.x, o.x2, o.y, o.dash, col_str(o.c).c_str());
     case K_VLINE: return s + fmt("(x=%" PRId64 ",y1=%" PRId64 ",y2=%" PRId64 ",dash=%" PRId64 ",rgba=%s)", o.y, o.x, o.x2, o.dash, col_str(o.c).c_str());
     case K_LINE: return s + fmt("(x0=%" PRId64 ",y0=%" PRId64 ",x1=%" PRId64 ",y1=%" PRId64 ",rgba=%s)", o.x, o.y, o.x2, o.y2, col_str(o.c).c_str());
@@ -191,6 +196,29 @@ static void run_real(const Op& o, Image& d, const Image& s, const Image* m, Call
       else d.fill_rect(o.x, o.y, o.w, o.h, o.c[0], o.c[1], o.c[2], o.c[3]);
       break;
     case K_TEXT:
+      if (o.tov >= 0) {
+        // explicit overload x format variant (long-text stage)
+        ssize_t tw = -12345, th = -12345;
+        string f2;
+        for (char ch : o.thead) { f2.push_back(ch); if (ch == '%') f2.push_back('%'); }
+        f2 += "%d%s";
+#define C07_TEXT(...)                                                                                                                              \
+  switch (o.tov) {                                                                                                                                  \
+    case 0: d.draw_text(o.x, o.y, &tw, &th, o.c[0], o.c[1], o.c[2], o.c[3], o.bg[0], o.bg[1], o.bg[2], o.bg[3], __VA_ARGS__); break;              \
+    case 1: d.draw_text(o.x, o.y, o.c[0], o.c[1], o.c[2], o.c[3], o.bg[0], o.bg[1], o.bg[2], o.bg[3], __VA_ARGS__); break;                        \
+    case 2: d.draw_text(o.x, o.y, &tw, &th, pack32(o.c), pack32(o.bg), __VA_ARGS__); break;                                                        \
+    case 3: d.draw_text(o.x, o.y, pack32(o.c), pack32(o.bg), __VA_ARGS__); break;                                                                  \
+    default: d.draw_text(o.x, o.y, pack32(o.c), __VA_ARGS__); break;                                                                               \
+  }
+        switch (o.tvar) {
+          case 0: C07_TEXT("%s", o.text.c_str()); break;
+          case 1: C07_TEXT("%*s", o.twidth, o.ttail.c_str()); break;
+          case 2: C07_TEXT(f2.c_str(), o.tnum, o.ttail.c_str()); break;
+          default: C07_TEXT("%-*s|", o.twidth, o.ttail.c_str()); break;
+        }
+#undef C07_TEXT
+        break;
+      }
       if (o.u32) {
         if (o.bg[3] == 0 && o.bg[0] == 0 && o.bg[1] == 0 && o.bg[2] == 0 && (o.text.size() & 1)) d.draw_text(o.x, o.y, pack32(o.c), "%s", o.text.c_str());
         else if (o.text.size() & 2) d.draw_text(o.x, o.y, pack32(o.c), pack32(o.bg), "%s", o.text.c_str());
@@ -1470,6 +1498,157 @@ static void format_suite(vf::Rng& r) {
 }
 
 // ------------------------------------------------------------------------------------------------
+// suite: formatted text lengths across every plausible internal buffer size, every overload, literal and
+// expanding formats.  Oracle unchanged (glyph model); plus model-free: one long call == the same text in chunks.
+
+static char printable(vf::Rng& r, bool visible) {
+  for (;;) {
+    char ch = (char)(0x20 + r.below(95));  // 0x20..0x7E
+    if (visible && (ch == ' ' || ch == '%')) continue;
+    return ch;
+  }
+}
+
+static string random_run(vf::Rng& r, size_t n, size_t wrap, size_t& col) {
+  string s;
+  for (size_t i = 0; i < n; i++) {
+    if (wrap && col == wrap) { s.push_back('\n'); col = 0; continue; }
+    s.push_back(printable(r, false));
+    col++;
+  }
+  return s;
+}
+
+static void longtext_case(size_t L, int var, int ov, int layout, uint64_t salt, vf::Rng& r) {
+  // layout 0: everything on canvas (wrapped every 41 columns if long); 1: only the tail of one long line on canvas;
+  // 2: fully clipped
+  Op o;
+  o.kind = K_TEXT;
+  o.tvar = var;
+  o.tov = ov;
+  o.tseed = (uint64_t)L * 1000 + (uint64_t)(var * 100 + ov * 10 + layout) + salt * 1000000007ULL;
+  vf::Rng tr(o.tseed);
+  size_t wrap = (layout == 0 && L > 60 && (var == 0 || var == 2)) ? 41 : 0, col = 0;
+  if (L == 0) { var = 0; o.tvar = 0; }
+  if (var == 0) {
+    o.text = random_run(tr, L, wrap, col);
+  } else if (var == 1) {
+    size_t t = min<size_t>(L, 12);
+    o.ttail = random_run(tr, t, 0, col);
+    o.twidth = (int)L;
+    o.text = string(L - t, ' ') + o.ttail;
+  } else if (var == 2) {
+    size_t nd = min<size_t>(L, 7), hl = (L - nd) / 2;
+    o.thead = random_run(tr, hl, wrap, col);
+    int num = 0;
+    string digits;
+    for (size_t i = 0; i < nd; i++) { int dg = (int)(i == 0 ? 1 + tr.below(9) : tr.below(10)); num = num * 10 + dg; digits.push_back((char)('0' + dg)); }
+    o.tnum = num;
+    if (nd == 0) { o.tnum = 0; digits = "0"; }  // "%d" always prints at least one digit: only reachable for L==0 (handled above)
+    col += nd;
+    o.ttail = random_run(tr, L - hl - nd, wrap, col);
+    o.text = o.thead + digits + o.ttail;
+  } else {
+    size_t t = min<size_t>(L - 1, 12);
+    o.ttail = random_run(tr, t, 0, col);
+    o.twidth = (int)(L - 1);
+    o.text = o.ttail + string(L - 1 - t, ' ') + "|";
+  }
+  // the last character must be a visible glyph other than the 0x7F box
+  if (L && var != 3 && (var == 0 || !o.ttail.empty())) {  // (variant 2 with an empty tail ends in a digit: visible anyway)
+    char last = printable(tr, true);
+    o.text[L - 1] = last;
+    if (var != 0) o.ttail[o.ttail.size() - 1] = last;
+  }
+  if (o.text.size() != L) { fprintf(stderr, "[harness-error] longtext length %zu != %zu\n", o.text.size(), L); exit(3); }
+  // canvas
+  int fmtsel = (int)((L + (size_t)var + (size_t)ov) % 8);
+  int cw = WIDTHS[fmtsel % 4];
+  bool alpha = fmtsel >= 4;
+  int64_t cwid, chei;
+  if (layout == 0) {
+    size_t lines = 1, maxcol = 0, cc = 0;
+    for (char ch : o.text) { if (ch == '\n') { lines++; cc = 0; } else { cc++; maxcol = max(maxcol, cc); } }
+    cwid = (int64_t)(6 * maxcol + 3);
+    chei = (int64_t)(8 * lines + 3);
+    o.x = 1; o.y = 1;
+    if ((int64_t)cwid * chei > 20000) cw = (fmtsel & 1) ? 16 : 8;
+  } else if (layout == 1) {
+    cwid = 70; chei = 11;
+    o.x = 66 - 6 * (int64_t)L; o.y = 2;
+  } else {
+    cwid = 9; chei = 8;
+    o.x = (L & 1) ? 2 : 2147483000LL; o.y = (L & 1) ? -50 : 1;
+  }
+  Canvas dm;
+  dm.init(cwid, chei, alpha, cw);
+  uint64_t pal[4][3];
+  standard_palette(tr, pal);
+  fill_content(dm, tr, pal);
+  bool packed = ov >= 2;
+  gen_colour(tr, dm, o.c, cw == 8 || packed);
+  gen_colour(tr, dm, o.bg, cw == 8 || packed);
+  o.c[3] = 0xFF;
+  switch ((L + (size_t)ov) % 3) { case 0: o.bg[3] = 0; break; case 1: o.bg[3] = 0xFF; break; default: o.bg[3] = 0x80; break; }
+  if (ov == 4) o.bg[0] = o.bg[1] = o.bg[2] = o.bg[3] = 0;
+  o.u32 = packed;
+  Canvas before = dm;
+  Image img = make_image(dm);
+  Canvas dummy;
+  dummy.init(0, 0, false, 8);
+  Image dimg = make_image(dummy);
+  Env e{&dm, &img, &dummy, &dimg};
+  e.content_seed = o.tseed;
+  bool ok = check_op(o, e, r, (cwid * chei < 3000 && layout != 2) ? 1 + (int)(L % 5) : 0);
+  // model-free: the same characters drawn in chunks of <= 97 at matching offsets (single-line texts, bg alpha 0 or FF)
+  (void)ok;
+  if (layout == 1 && (o.bg[3] == 0 || o.bg[3] == 0xFF) && o.text.find('\n') == string::npos && L > 0) {
+    Image pieces = make_image(before);
+    string what;
+    bool threw = false;
+    for (size_t off = 0; off < L; off += 97) {
+      Op p2;
+      p2.kind = K_TEXT;
+      memcpy(p2.c, o.c, sizeof(p2.c));
+      memcpy(p2.bg, o.bg, sizeof(p2.bg));
+      p2.x = o.x + 6 * (int64_t)off;
+      p2.y = o.y;
+      p2.text = o.text.substr(off, 97);
+      p2.tov = 1;
+      C->evaluations++;
+      if (!run_guarded(p2, pieces, dimg, nullptr, nullptr, &what).empty()) threw = true;
+    }
+    if (threw || !format_matches(pieces, dm) || memcmp(pieces.get_data(), img.get_data(), img.get_data_size()))
+      C->violation("draw_text:one-call-vs-chunks:" + wtag(dm), "one draw_text call differs from the same characters drawn in chunks of 97 at matching offsets", op_str(o) + " dst=" + canvas_str(dm));
+    C->count("draw_text_chunk_comparisons");
+  }
+  const char* lc = L <= 40 ? "0-40" : L <= 136 ? "120-136" : L <= 260 ? "250-260" : L <= 516 ? "510-516" : L <= 1030 ? "1020-1030" : "4090-4100";
+  C->cls(fmt("draw_text:len%s:var%d", lc, o.tvar));
+  if (L >= 250) {
+    C->cls(fmt("draw_text:len>=250:overload%d", ov));
+    C->cls(fmt("draw_text:len>=250:layout%d", layout));
+  }
+}
+
+static void longtext_suite(vf::Rng& r) {
+  vector<size_t> lens;
+  auto span = [&](size_t a, size_t b) { for (size_t l = a; l <= b; l++) lens.push_back(l); };
+  span(0, 40); span(120, 136); span(250, 260); span(510, 516); span(1020, 1030); span(4090, 4100);
+  uint64_t idx = 0;
+  for (size_t L : lens) {
+    for (int var = 0; var < 4; var++) for (int ov = 0; ov < 5; ov++) {
+      // quick: lengths above 260 run 8 of the 20 (variant, overload) pairs (every variant and every overload still occurs
+      // for every length); thorough: all 20
+      if (C->quick() && L > 260 && ((var * 5 + ov + (int)L) % 5) >= 2) continue;
+      if (!C->mine(idx++)) continue;
+      if (var == 0 || var == 2) longtext_case(L, var, ov, 0, C->seed, r);        // everything visible
+      if (var == 1 || var == 3 || L <= 300) longtext_case(L, var, ov, 1, C->seed, r);  // tail of one long line visible
+    }
+    if (C->mine(idx++)) longtext_case(L, 0, (int)(L % 5), 2, C->seed, r);  // fully clipped
+  }
+}
+
+// ------------------------------------------------------------------------------------------------
 // suite: random operation sequences on larger canvases, large coordinates, all formats
 
 static void sequence_suite(vf::Rng& r) {
@@ -1576,6 +1755,7 @@ int main(int argc, char** argv) {
   if (want("blit")) blit_suite(r);
   if (want("line")) line_suite(r);
   if (want("text")) text_suite(r);
+  if (want("longtext")) longtext_suite(r);
   if (want("ident")) identity_suite(r);
   if (want("format")) format_suite(r);
   if (want("seq")) sequence_suite(r);
